@@ -360,7 +360,8 @@ def run(ctx, env):
         rb = reachable_local_bodies(prog, hb.path)
         own = {p: b for p, b in rb.items() if p == hb.path or p.startswith(hb.path + "::")}
         pcalls = [(b.path, blk) for b in own.values() for blk, t, c in b.calls() if c is not None and c.local and c.path == "NetflowParser::parse_bytes"]
-        convs = [(b.path, blk) for b in own.values() for blk, t, c in b.calls() if c is not None and c.local and c.path == "NetflowPacket::as_netflow_common"]
+        convs = [(b.path, blk) for b in own.values() for blk, t, c in b.calls() if c is not None and c.local and
+                 (c.path == "NetflowPacket::as_netflow_common" or ("TryFrom<&NetflowPacket>" in c.path and "NetflowCommon" in c.path))]
         bad = order_preserving(prog, own)
         ok = len(pcalls) == 1 and len(convs) >= 1 and not bad
         ctx.ob("R13.5", hb.path, "flatten-in-order", ok,
